@@ -363,7 +363,17 @@ func checkC19(c *hx.Ctx) {
 			}
 		}
 		store.Set(d.Suffix, anch)
-		dh := dochandler.New(hx.Namespace, nil, pc, &hx.RecWriter{}, processor.New("verif", store, pc), hx.NopMetrics{})
+		var popts []processor.Option
+		if i%3 == 1 && !d.Deact {
+			// an accepted operation that is not anchored yet (unpublished-operation store): the DID is still a published one
+			if b, err := d.Update(genPatches(r, 2, ids), 0, 0); err == nil {
+				pending := Place(b.Desc, 9000, 0, "", 0)
+				H = append(H, pending)
+				popts = append(popts, processor.WithUnpublishedOperationStore(&unpubStore{ops: ToAnchored(d.Suffix, []*ref.Op{pending})}))
+				c.Count("published_dids_with_a_pending_operation")
+			}
+		}
+		dh := dochandler.New(hx.Namespace, nil, pc, &hx.RecWriter{}, processor.New("verif", store, pc, popts...), hx.NopMetrics{})
 		did := hx.Namespace + ":" + d.Suffix
 		st, merr := ref.Resolve(H, ref.ResolveOpts{})
 		replay := map[string]interface{}{"history": replayOps(H), "did": did}
@@ -405,6 +415,7 @@ func checkC19(c *hx.Ctx) {
 	c.Floor("material:jwk", 100)
 	c.Floor("rechecked_after_later_calls", 1000)
 	c.Floor("resolved_through_handler", 50)
+	c.Floor("published_dids_with_a_pending_operation", 20)
 	c.Floor("models_with_repeated_published_operations", 20)
 	c.Floor("resolved_through_handler_with_equivalent_references", 20)
 	c.Floor("same_model_transformed_repeatedly", 100)
